@@ -88,9 +88,11 @@ def pp(e, noast=False, ctx=0):
         parts = [pp(x, noast, 1 if x[0] == "alt" else 0) for x in e[1]]
         s = " / ".join(parts)
     elif t == "and":
-        s = "&" + pp(e[1], noast, 5 if e[1][0] == "act" else 3)
+        inner = pp(e[1], noast, 3)
+        s = "&" + ("(" + inner + ")" if inner.startswith("{") else inner)      # "&{" would start a predicate
     elif t == "not":
-        s = "!" + pp(e[1], noast, 5 if e[1][0] == "act" else 3)
+        inner = pp(e[1], noast, 3)
+        s = "!" + ("(" + inner + ")" if inner.startswith("{") else inner)
     elif t == "q":
         s = pp(e[1], noast, 4) + "?"
     elif t == "star":
